@@ -96,7 +96,116 @@ def matrix_phase(run, tier, seed):
     run.coverage["distinct_nontrivial"] = run.coverage.get("distinct_nontrivial", 0) + len(obs.get("nontrivial", []))
 
 
+def _strip(x):
+    if isinstance(x, dict):
+        return {k: _strip(v) for k, v in x.items() if k not in ("span", "token", "select_token", "quote_style")}
+    if isinstance(x, list):
+        return [_strip(i) for i in x]
+    return x
+
+
+def window_specs(ast):
+    """every window-function call of a parsed statement -> sorted list of (#partition keys, order directions, frame)"""
+    import json
+    out = []
+
+    def walk(e):
+        if isinstance(e, list):
+            for x in e:
+                walk(x)
+        elif isinstance(e, dict):
+            f = e.get("Function")
+            if isinstance(f, dict) and isinstance(f.get("over"), dict) and "WindowSpec" in f["over"]:
+                ws = f["over"]["WindowSpec"]
+                obs_ = ws.get("order_by") or []
+                if obs_ and all(isinstance(o.get("expr"), dict) and "Value" in o["expr"] for o in obs_):
+                    obs_ = []      # ORDER BY <constant>: what some dialects (Snowflake) require in place of no ordering
+                order = [(o.get("options") or {}).get("asc") for o in obs_]
+                out.append(json.dumps([len(ws.get("partition_by") or []), order, _strip(ws.get("window_frame"))], sort_keys=True))
+            for v in e.values():
+                walk(v)
+    walk(ast)
+    return sorted(out)
+
+
+def _xdialect_shard(progs, shard, all_dialects):
+    """Cross-dialect differential for the dialects SQLite cannot stand in for: the window specifications
+    (partition size, order directions, frame) of the statement emitted for dialect D must be those of the
+    statement emitted for sql.sqlite, whose executed values the model judges in the matrix phase."""
+    from .. import core
+    from ..gen import grel
+    w = core.Worker()
+    viols, obs = [], {"programs": 0, "pairs": 0, "pairs_with_frames": 0, "skipped_unparsed": 0, "skipped_rejected": 0, "dialect_pairs": {}}
+    seen = set()
+    others = [d for d in core.DIALECTS if d != "sqlite"]
+    for i, prog in enumerate(progs):
+        src = grel.pp_program(prog)
+        ref = w.call({"op": "compile", "src": src, "target": "sql.sqlite"})
+        if "sql" not in ref:
+            obs["skipped_rejected"] += 1
+            continue
+        pr = w.call({"op": "sqlparse", "dialect": "sqlite", "sql": ref["sql"], "ast": True})
+        if not pr.get("ok"):
+            obs["skipped_unparsed"] += 1
+            continue
+        ref_specs = window_specs(pr["ast"])
+        obs["programs"] += 1
+        ds = others if all_dialects else [others[(i + shard + k * 5) % len(others)] for k in range(2)]
+        for d in ds:
+            r = w.call({"op": "compile", "src": src, "target": "sql." + d})
+            if "sql" not in r:
+                if "panic" in r or "abort" in r:
+                    continue          # C12 owns these
+                obs["skipped_rejected"] += 1
+                continue
+            pd = w.call({"op": "sqlparse", "dialect": d, "sql": r["sql"], "ast": True})
+            if not pd.get("ok"):
+                obs["skipped_unparsed"] += 1
+                continue
+            specs = window_specs(pd["ast"])
+            obs["pairs"] += 1
+            obs["dialect_pairs"][d] = obs["dialect_pairs"].get(d, 0) + 1
+            if any('"units"' in x for x in ref_specs):
+                obs["pairs_with_frames"] += 1
+            if specs != ref_specs:
+                missing = [x for x in ref_specs if x not in specs]
+                extra = [x for x in specs if x not in ref_specs]
+                kind = "window_spec_differs"
+                fn = [k for k in grel.kinds_of(prog) if "derive" in k or "window" in k]
+                shape = d + " :: " + relcheck.shape_of(prog)
+                key = (d, tuple(missing[:1]), tuple(extra[:1]))
+                viols.append({"property": "C04", "symptom": kind, "shape": shape,
+                              "witness": {"xdialect": True, "prog": prog, "dialect": d, "prql": src} if key not in seen else None,
+                              "detail": "sql.sqlite has %s, sql.%s has %s || sqlite: %s || %s: %s" % (missing[:2], d, extra[:2], ref["sql"][:300], d, r["sql"][:300])})
+                seen.add(key)
+    w.close()
+    return viols, obs
+
+
+def xdialect_phase(run, tier, seed):
+    from .. import core
+    progs = frame_matrix(tier)[0][1]
+    if tier == "quick":
+        progs = progs[seed % 3::3]
+    N = core.NCPU
+    res = core.run_shards(_xdialect_shard, [dict(progs=progs[i::N], shard=i, all_dialects=(tier != "quick")) for i in range(N)])
+    obs = {}
+    for v, o in res:
+        run.extend(v)
+        core.merge_counts(obs, o)
+    run.coverage["cross_dialect_window_specs"] = dict(obs, rule="for each frame-matrix program the statements for other dialects (quick: 2 rotating of 11, thorough: all) must carry the same window specifications (number of partition keys, order directions, frame units and bounds) as the sql.sqlite statement that the matrix phase executes and judges")
+    run.coverage["evaluations"] = run.coverage.get("evaluations", 0) + obs.get("pairs", 0)
+
+
 def run(tier, seed):
+    r = run_(tier, seed)
+    xdialect_phase(r, tier, seed)
+    for v in r.violations:
+        v["property"] = "C04"
+    return r
+
+
+def run_(tier, seed):
     r = c01.explore("C04", {"C01"}, [("window", 1.0)], tier, seed, 900, 40000, ASSUMPTIONS)
     matrix_phase(r, tier, seed)
     for v in r.violations:
@@ -107,6 +216,9 @@ def run(tier, seed):
 
 
 def replay(case):
+    if case.get("xdialect"):
+        vs, _ = _xdialect_shard([case["prog"]], 0, True)
+        return [v for v in vs if v["shape"].startswith(case["dialect"] + " ::")]
     vs = relcheck.replay_case(case, {"C01"})
     for v in vs:
         v["property"] = "C04"
